@@ -96,7 +96,7 @@ func c01case(c GCase, a *run.Acc) {
 		if c.Fam == "userlist" {
 			userAnyOnly = map[int]bool{1: true} // the producer only: its consumers are the library's own combinators
 		}
-		b = gram.Build(g, &gram.Hooks{Inside: gd.Inside, Outside: gd.Outside, MemoExpr: c.MemoExpr, ShareLeaves: true, ShareExprs: run.Hash(g.String())%4 >= 2, UserAnyTop: run.Hash(g.String())%5 == 3 || c.Fam == "userlist", UserAnyOnly: userAnyOnly,
+		b = gram.Build(g, &gram.Hooks{Budget: gd.LeafTick, Inside: gd.Inside, Outside: gd.Outside, MemoExpr: c.MemoExpr, ShareLeaves: true, ShareExprs: run.Hash(g.String())%4 >= 2, UserAnyTop: run.Hash(g.String())%5 == 3 || c.Fam == "userlist", UserAnyOnly: userAnyOnly,
 			// the activation bound is claimed for EVERY memoized parser, also the extra wrappers around sub-expressions
 			UnderMemo: func(e *gram.Expr, p parsley.Parser) parsley.Parser { return gd.Inside(1000+e.ID, p) }})
 		c01cache = c01built{g: g, memo: c.MemoExpr, gd: gd, b: b}
